@@ -99,7 +99,7 @@ func (e *Engine) callStatic(st *State, fr *Frame, res ssa.Value, callee *ssa.Fun
 		return nil, true
 	}
 	// 2. contract
-	if con := e.P.contractFor(callee); con != nil && !con.has("inline") && !(callee == e.fn && len(st.frames) == 0) {
+	if con := e.P.contractFor(callee); con != nil && !con.has("inline") && !e.forceInline(callee) {
 		e.applyContract(st, fr, res, callee, con, args, pos)
 		return nil, true
 	}
@@ -117,7 +117,7 @@ func (e *Engine) callStatic(st *State, fr *Frame, res ssa.Value, callee *ssa.Fun
 			e.usedExterns[name+" (assumed pure)"] = true
 			rt := e.resultType(c)
 			if rt != nil {
-				e.bindResult(st, res, e.freshVal(st, "r."+callee.Name(), rt))
+				e.bindResult(st, res, e.pureResult(st, "ext."+name, args, rt, e.P.deterministic(callee)))
 			}
 			return nil, true
 		case "shallow":
@@ -133,12 +133,39 @@ func (e *Engine) callStatic(st *State, fr *Frame, res ssa.Value, callee *ssa.Fun
 	return nil, true
 }
 
+// forceInline: the root contract asks for callee bodies instead of their contracts
+// (`inline-calls` = all falco callees, or `inline-calls Name...`). Used by lemma functions.
+func (e *Engine) forceInline(callee *ssa.Function) bool {
+	if e.con == nil || callee.Blocks == nil || !inFalco(callee) {
+		return false
+	}
+	for _, c := range e.con.get("inline-calls") {
+		if len(c.Args) == 0 {
+			return true
+		}
+		for _, a := range c.Args {
+			if a == callee.Name() || a == funcKey(callee) {
+				return true
+			}
+		}
+	}
+	return false
+}
+
 func (e *Engine) canInline(callee *ssa.Function, st *State) bool {
 	if callee.Blocks == nil {
 		return false
 	}
 	if !inFalco(callee) {
 		return false
+	}
+	if e.forceInline(callee) {
+		for _, f := range st.frames {
+			if f.fn == callee {
+				return false
+			}
+		}
+		return len(st.frames) < 8
 	}
 	if con := e.P.contractFor(callee); con != nil && con.has("noinline") {
 		return false
@@ -518,7 +545,7 @@ func (e *Engine) invoke(st *State, fr *Frame, res ssa.Value, c *ssa.CallCommon, 
 		full = false
 		e.usedExterns[typeName(c.Value.Type())+"."+mname+" (interface method assumed heap-pure)"] = true
 		if rt := e.resultType(c); rt != nil {
-			e.bindResult(st, res, e.freshVal(st, "r."+mname, rt))
+			e.bindResult(st, res, e.pureResult(st, "meth."+mname, append([]Val{recv}, args...), rt, true))
 		}
 		return nil, true
 	}
@@ -1117,4 +1144,170 @@ func calleeMatches(callee, pat string) bool {
 		return true
 	}
 	return false
+}
+
+
+// pureResult: result of a call that has no effect on modelled memory. When the callee is
+// deterministic, the result is an uninterpreted function of the arguments (and of the heap
+// snapshot when an argument is a reference), so that equal calls give equal results.
+func (e *Engine) pureResult(st *State, name string, args []Val, rt types.Type, det bool) Val {
+	if !det {
+		return e.freshVal(st, "r."+name, rt)
+	}
+	var terms, sorts []string
+	ref := false
+	for _, a := range args {
+		switch a.K {
+		case KBool, KInt, KFloat, KStr:
+			terms = append(terms, a.T)
+			srt := "Int"
+			if a.K != KStr {
+				if a.Ty != nil {
+					srt = scalarSort(a.Ty)
+				} else {
+					return e.freshVal(st, "r."+name, rt)
+				}
+			}
+			sorts = append(sorts, srt)
+		case KPtr, KMap:
+			ref = true
+			terms = append(terms, a.T)
+			sorts = append(sorts, "Int")
+		case KIface:
+			ref = true
+			terms = append(terms, a.T, a.X[0])
+			sorts = append(sorts, "Int", "Int")
+		case KSlice:
+			ref = true
+			terms = append(terms, a.T, a.X[0], a.X[1])
+			sorts = append(sorts, "Int", bvSort(64), bvSort(64))
+		default:
+			return e.freshVal(st, "r."+name, rt)
+		}
+	}
+	hv := ""
+	if ref {
+		strip := true
+		for _, t := range terms {
+			if strings.Contains(t, "|A!") {
+				strip = false
+			}
+		}
+		hv = fmt.Sprintf("!h%d", e.heapVersion(st, strip))
+	}
+	mk := func(suffix string, t types.Type) (Val, bool) {
+		switch kindOf(t) {
+		case KBool, KInt, KFloat, KStr:
+			fn := sym(name + hv + suffix + "/" + strings.Join(sorts, ","))
+			if len(terms) == 0 {
+				e.decl(fn, scalarSort(t))
+				return Val{K: kindOf(t), Ty: t, T: fn}, true
+			}
+			e.declFun(fn, "("+strings.Join(sorts, " ")+") "+scalarSort(t))
+			return Val{K: kindOf(t), Ty: t, T: "(" + fn + " " + strings.Join(terms, " ") + ")"}, true
+		}
+		return Val{}, false
+	}
+	if tup, ok := rt.(*types.Tuple); ok {
+		v := Val{K: KTuple, Ty: rt}
+		for i := 0; i < tup.Len(); i++ {
+			if f, ok := mk(fmt.Sprintf("#%d", i), tup.At(i).Type()); ok {
+				v.F = append(v.F, f)
+			} else {
+				v.F = append(v.F, e.freshVal(st, "r."+name, tup.At(i).Type()))
+			}
+		}
+		return v
+	}
+	if v, ok := mk("", rt); ok {
+		if v.K == KStr {
+			e.declStrFuns()
+		}
+		return v
+	}
+	return e.freshVal(st, "r."+name, rt)
+}
+
+// heapVersion: an id that is equal for states whose heaps are syntactically equal. With strip,
+// stores into objects allocated during this run (index built from the allocation counter) are
+// ignored: they cannot change what an object that existed before (the receiver) observes.
+func (e *Engine) heapVersion(st *State, strip bool) int {
+	var sb strings.Builder
+	for _, k := range sortedKeys(st.heap) {
+		t := st.heap[k]
+		if strip {
+			t = stripFreshStores(t)
+		}
+		sb.WriteString(k)
+		sb.WriteByte('=')
+		sb.WriteString(t)
+		sb.WriteByte(';')
+	}
+	fp := sb.String()
+	if e.heapIDs == nil {
+		e.heapIDs = map[string]int{}
+	}
+	id, ok := e.heapIDs[fp]
+	if !ok {
+		id = len(e.heapIDs) + 1
+		e.heapIDs[fp] = id
+	}
+	return id
+}
+
+func stripFreshStores(t string) string {
+	for strings.HasPrefix(t, "(store ") {
+		parts := sexpParts(t)
+		if len(parts) != 4 || !strings.Contains(parts[2], "|A!") {
+			break
+		}
+		t = parts[1]
+	}
+	return t
+}
+
+// sexpParts splits "(a b (c d) e)" into its top-level elements.
+func sexpParts(s string) []string {
+	if len(s) < 2 || s[0] != '(' {
+		return nil
+	}
+	s = s[1 : len(s)-1]
+	var out []string
+	d := 0
+	inq := false
+	start := -1
+	for i := 0; i < len(s); i++ {
+		c := s[i]
+		if c == '|' {
+			inq = !inq
+		}
+		if inq {
+			if start < 0 {
+				start = i
+			}
+			continue
+		}
+		switch c {
+		case '(':
+			if d == 0 && start < 0 {
+				start = i
+			}
+			d++
+		case ')':
+			d--
+		case ' ':
+			if d == 0 && start >= 0 {
+				out = append(out, s[start:i])
+				start = -1
+			}
+		default:
+			if start < 0 {
+				start = i
+			}
+		}
+	}
+	if start >= 0 {
+		out = append(out, s[start:])
+	}
+	return out
 }
